@@ -235,7 +235,11 @@ RetToNode(m, fr, v, orc) ==
             PopRet(Store([m EXCEPT !.heap = cp.h], fr.vm, node.name, cp.v), node, None)
       [] node.k = "short" -> ShortApply(m, fr, v)
       [] node.k = "if" ->
-            IF fr.pc = 1
+            IF Dev("MutIfBoth")      \* specification mutant (non-vacuity of C09): the then-branch is always evaluated
+            THEN (IF fr.pc = 1 THEN EvalChild(SetTop(m, [fr EXCEPT !.pc = 2, !.acc = <<v>>]), fr, 2)
+                  ELSE IF fr.pc = 2 /\ ~Truthy(m.heap, fr.acc[1]) THEN EvalChild(SetTop(m, [fr EXCEPT !.pc = 3]), fr, 3)
+                  ELSE PopRet(m, node, v))
+            ELSE IF fr.pc = 1
             THEN (LET b == IF Truthy(m.heap, v) THEN 2 ELSE 3 IN EvalChild(SetTop(m, [fr EXCEPT !.pc = b]), fr, b))
             ELSE PopRet(m, node, v)
       [] node.k = "slice" ->
@@ -549,7 +553,8 @@ DoExc(m) ==
     IF Len(m.k) = 0 THEN FinishCall(m0, [t |-> "exc", e |-> e])
     ELSE LET fr == Top(m.k) IN
          CASE fr.f = "node" -> PopExc(m0, fr.node, e)
-           [] fr.f = "lam" -> PopScope([m0 EXCEPT !.k = Pop(@)], fr.vm)      \* finally: pop_scope
+           [] fr.f = "lam" -> IF Dev("MutNoPopOnRaise") THEN [m0 EXCEPT !.k = Pop(@)]     \* specification mutant (non-vacuity of C10)
+                              ELSE PopScope([m0 EXCEPT !.k = Pop(@)], fr.vm)      \* finally: pop_scope
            [] fr.f = "host" -> IF fr.mode = "swallow" THEN [m0 EXCEPT !.k = Pop(@), !.ctl = [t |-> "ret", v |-> None]]
                                ELSE [m0 EXCEPT !.k = Pop(@)]
            [] OTHER -> [m0 EXCEPT !.k = Pop(@)]       \* ho, ast
